@@ -287,7 +287,7 @@ def eventauth__checkPowerLevelEventV2 : List String := [
 def eventauth__checkPowerLevelEventV3 : List String := [
   "func func(sender string, createEvent PDU, oldPowerLevels, newPowerLevels PowerLevelContent) error",
   "var content CreateContent",
-  "if err := json.Unmarshal(createEvent.Content(), &content); err != nil {",
+  "if err := json.Unmarshal(exactMembersOnly(createEvent.Content(), &content), &content); err != nil {",
   "return errorf(\"checkPowerLevelEventV3 unparseable create event content: %s\", err.Error())",
   "}",
   "creators := []string{string(createEvent.SenderID())}",
@@ -373,6 +373,9 @@ def eventauth_allowerContext_aliasEventAllowed : List String := [
   "if err != nil {",
   "return err",
   "}",
+  "if sender == nil {",
+  "return errorf(\"userID not found for sender %q in room %q\", event.SenderID(), event.RoomID().String())",
+  "}",
   "if event.RoomID().String() != a.create.roomID {",
   "return errorf(\"create event has different roomID: %q (%s) != %q (%s)\", event.RoomID().String(), event.EventID(), a.create.roomID, a.create.eventID)",
   "}",
@@ -432,6 +435,9 @@ def eventauth_allowerContext_createEventAllowed : List String := [
   "sender, err := a.userIDQuerier(a.roomID, event.SenderID())",
   "if err != nil {",
   "return err",
+  "}",
+  "if sender == nil {",
+  "return errorf(\"userID not found for sender %q in room %q\", event.SenderID(), event.RoomID().String())",
   "}",
   "verImpl, err := GetRoomVersion(event.Version())",
   "if err != nil {",
@@ -1442,7 +1448,7 @@ def stateresolutionv2__creatorsFromCreateEventOrNone : List String := [
   "func func(createEvent PDU) []string",
   "creators := []string{string(createEvent.SenderID())}",
   "var content CreateContent",
-  "if err := json.Unmarshal(createEvent.Content(), &content); err != nil {",
+  "if err := json.Unmarshal(exactMembersOnly(createEvent.Content(), &content), &content); err != nil {",
   "return creators",
   "}",
   "return append(creators, content.AdditionalCreators...)"
